@@ -87,11 +87,13 @@ CLAIMED = {
         "Coq invariant and frame theorems for the variable store + sequence-based differential check with a reference store"),
     "C07": entry(
         "LEN, LEFT$, RIGHT$, MID$ return exactly the documented piece counted in characters; INSTR returns one plus the least index of an occurrence or 0; "
-        "MID$ assignment keeps the length and the prefix; CHR$/ASC round trip (Props/C07.v, Proofs/Strings.v). Strings are lists of scalar values, so "
-        "no model function can split a character.",
+        "MID$ assignment keeps the length and the prefix; CHR$/ASC round trip; a stored string has at most 255 characters (STRING TOO LONG beyond); "
+        "concatenation is append; < is the lexicographic order on character codes with a proper prefix smaller, = is equality of the sequences; STRING$ "
+        "repeats the first character n times (n <= 255); HEX$ / OCT$ digits read back, by the interpreter's own radix reader, as the argument's 16-bit "
+        "pattern (Props/C07.v, Proofs/Strings.v, Strings2.v). Strings are lists of scalar values, so no model function can split a character.",
         "every string function model vs crate over cartesian products of boundary strings (incl. multi-byte), positions and patterns; an independent "
         "character-level specification decides each answer.",
-        "STR$/VAL, HEX$/OCT$, comparison and the 255 limit on store are differential only. That the crate's byte-offset slicing agrees with the "
+        "STR$/VAL and SPC are differential only. That the crate's byte-offset slicing agrees with the "
         "character-level model is exactly what the differential check tests.",
         "Coq theorems on the string functions + exhaustive boundary-grid differential check with a spec monitor"),
     "C08": entry(
